@@ -301,6 +301,23 @@ def generate(seed, prop):
         pos = rng.randint(0, len(ops))
         ops[pos:pos] = [{"op": "construct", "cls": cls, "args": a2}, {"op": "save", "i": -1, "path": "/simfs/s/z.json", "via": "method"},
                         {"op": "construct", "cls": cls, "args": a1}, {"op": "load_into", "path": "/simfs/s/z.json", "i": -1}]
+    if rng.random() < 0.15:
+        # biased schedule: a save of a LONG object dies part-way (crash: only the disk survives), later a SHORTER object is
+        # saved under the same name and loaded - whatever the dead save left behind (also under a temporary name) must
+        # not show in the new file
+        cls = rng.choice([c for c in CLASSES if c not in PRE])
+        long_args = {"smoothing": {"t": "dict", "v": {"operator": "konno_and_ohmachi", "bandwidth": 40,
+                                                      "center_frequencies_in_hz": {"t": "list", "v": [float(x) for x in np.geomspace(0.2, 30.0, rng.randint(300, 600))]}}}}
+        short_args = {"smoothing": {"t": "dict", "v": {"operator": "konno_and_ohmachi", "bandwidth": 40,
+                                                       "center_frequencies_in_hz": {"t": "list", "v": [1.0, 2.0, 5.0]}}}}
+        path = "/simfs/s/" + rng.choice(["a", "b", "c"]) + ".json"
+        pos = rng.randint(0, len(ops))
+        ops[pos:pos] = [{"op": "construct", "cls": cls, "args": long_args},
+                        {"op": "save", "i": -1, "path": path, "via": rng.choice(["method", "function"]),
+                         "fault": {"kind": rng.choice(["crash_in_write", "crash_in_write", "enospc"]), "frac": rng.choice([0.5, 0.9, 0.99])}},
+                        {"op": "construct", "cls": cls, "args": short_args},
+                        {"op": "save", "i": -1, "path": path, "via": "method"},
+                        {"op": rng.choice(["load_new", "dispatch_read"]), "path": path, "i": -1}]
     return {"machine": "settings", "property": prop, "run_seed": int(seed),
             "config": {"weights": w, "fault_rate": fault_rate, "focus": focus},
             "world": {"records": {"k": rng.randrange(1 << 30), "n": 1001, "rate": 100}}, "ops": ops, "faults": []}
